@@ -67,7 +67,8 @@ def specs(shape):
     out = []
     for m, md in enumerate(shape["methods"]):
         body = {"ret": f"return {m}", "next": f"return ({m}, call_next(x))",
-                "rec": f"return ({m}, recurse(FW{m})) if x is not FW{m} else {m}"}[md["kind"]]
+                "rec": f"return ({m}, recurse(FW{m})) if x is not FW{m} else {m}",
+                "fwd": f"return ({m}, call_next(FW{m})) if x is not FW{m} else {m}"}[md["kind"]]
         out.append(dict(pos=[("x", ("obj",), False)], body=body))
     out.append(dict(pos=[("x", ("obj",), False)], body="return 'late'"))
     return out
@@ -134,7 +135,7 @@ def make_run(W, shape, known_active=None):
                 def cond(x):
                     return bool(getattr(x, "flag", True))
                 types.append(Dependent[class_check(mkpred(t[1])), cond])
-        extra = {f"FW{m}": inst(md["fw"]) for m, md in enumerate(methods) if md["kind"] == "rec"}
+        extra = {f"FW{m}": inst(md["fw"]) for m, md in enumerate(methods) if md["kind"] in ("rec", "fwd")}
         hs, LOG, ns = ms.instantiate(W, extra=extra)
         ov = Ovld()
         for m in range(M):
@@ -175,7 +176,7 @@ def gen_shapes(tier, seed):
     rng = random.Random(seed)
     n = 3
     T = [("K", 0), ("K", 1), ("K", 2), ("obj",), ("pred", 0), ("pred", 1), ("hook",), ("deppred", 0), ("deppred", 1)]
-    kinds = ["ret", "next", "rec"]
+    kinds = ["ret", "next", "rec", "fwd"]
     allshapes = []
     for mt in itertools.product(T, repeat=3):
         if not any(t[0] in ("pred", "hook", "deppred") for t in mt):
@@ -183,7 +184,7 @@ def gen_shapes(tier, seed):
         for ks in itertools.product(kinds, repeat=3):
             md = [dict(t=list(t), kind=k) for t, k in zip(mt, ks)]
             for m in md:
-                if m["kind"] == "rec":
+                if m["kind"] in ("rec", "fwd"):
                     m["fw"] = rng.choice([0, 1, n])
             allshapes.append(dict(n=n, methods=md))
     total = len(allshapes)
@@ -213,7 +214,7 @@ def main(tier, seed):
         PID, tier, seed, t0, results,
         bounds=dict(classes=3, methods="3 (+1 registered after the first phase)", positions=1,
                     annotations="harness classes, object, two class_check(predicate) types, Dependent[class_check(predicate), condition], one user type with __type_order__/__is_supertype__ hooks",
-                    bodies="return | call_next(x) | recurse(other)", calls="warm-up of K0, K1, object(); then each again; register; both phases again",
+                    bodies="return | call_next(x) | recurse(other) | call_next(other)", calls="warm-up of K0, K1, object(); then each again; register; both phases again",
                     hook_answers="predicates: one solver boolean per (predicate, class); hooks: supertype boolean per class, order chosen among "
                                  "LESS/MORE/NONE/NotImplemented per class",
                     priorities="all equal (quick) / symbolic integers (thorough)",
